@@ -160,3 +160,12 @@ Print Assumptions concurrent_version_after_own_script.
 Theorem concurrent_starters_refuted : conc_witness = true.
 Proof. exact conc_witness_holds. Qed.
 Print Assumptions concurrent_starters_refuted.
+
+(* The per-process oracle the check evaluates on the observed logs of two concurrent starters (a version write
+   must directly follow the completed statement that is script v-1 of that stream, statements identified by id)
+   accepts every log the model can produce under any schedule: its alarms are never artefacts. *)
+Theorem concurrent_oracle_accepts_model_logs : forall (c : cfg) (sched : list (bool * outcome)) (hs : ccat cat) (who : bool),
+  opmon gen_sids None (oplog who (map (fun e => (fst e, abs_event gen_sids (snd e)))
+     (snd (ch_conc gen_scripts gen_oncluster c sched (proc0 c) (proc0 c) (db0 (ccat cat) hs))))) = true.
+Proof. exact gen_conc_oracle_accepts. Qed.
+Print Assumptions concurrent_oracle_accepts_model_logs.
